@@ -858,6 +858,8 @@ def c16_plan(pid, tier, seed, t0):
         jobs.append(("handoff", [conc, "handoff", str([4, 8, 16][k % 3]), str(300 if tier == "quick" else 3000), str(seed * 37 + k)]))
     for k in range(6 if tier == "quick" else 150):
         jobs.append(("crowd", [conc, "crowd", str([8, 16, 4][k % 3]), str(40 if tier == "quick" else 300), str(seed * 41 + k)]))
+    for k in range(4 if tier == "quick" else 12):
+        jobs.append(("hammer", [conc, "hammer", str([8, 32, 16, 24][k % 4]), str(600 if tier == "quick" else 2500), str(seed * 43 + k)]))
     first_runs = 200 if tier == "quick" else 10000
     for k in range(first_runs):
         spins = rnd.choice([0, 0, 1000, 10000, 100000, 1000000, 3000000])
@@ -874,6 +876,8 @@ def c16_plan(pid, tier, seed, t0):
             jobs.append(("tsan-twins", [tsan, "twins", str([2, 4][k % 2]), "60", str(seed * 19 + k)]))
         for k in range(3 if tier == "quick" else 30):
             jobs.append(("tsan-handoff", [tsan, "handoff", str([4, 8][k % 2]), "40", str(seed * 23 + k)]))
+        for k in range(2 if tier == "quick" else 20):
+            jobs.append(("tsan-hammer", [tsan, "hammer", str([4, 8][k % 2]), "20", str(seed * 29 + k)]))
         for k in range(20 if tier == "quick" else 200):
             jobs.append(("tsan-first", [tsan, "first", str(rnd.choice([4, 8])), str(rnd.choice([0, 10000, 300000])), str(k)]))
     else:
@@ -881,41 +885,49 @@ def c16_plan(pid, tier, seed, t0):
         env_t = None
     arrived_hist = {}
     inits = {}
-    with ThreadPoolExecutor(max_workers=o.NCPU) as ex:
-        futs = [(kind, cmd, ex.submit(_run_json, cmd, env_t if kind.startswith("tsan") else None)) for kind, cmd in jobs]
-        for kind, cmd, f in futs:
-            out, rc, stderr = f.result()
-            if rc == "watchdog":
-                merged["inconclusive"].append("%s: wall-clock watchdog" % " ".join(cmd[1:]))
-                continue
-            if kind.startswith("tsan") and (rc == 66 or "ThreadSanitizer" in stderr):
-                i = stderr.find("WARNING: ThreadSanitizer")
-                violation("C16/tsan-report", {"cmd": " ".join(cmd[1:]), "report": stderr[i:i + 2500]})
-                continue
-            if out is None or rc != 0:
-                cause = _death_cause(rc if isinstance(rc, int) else 1, stderr)
-                violation("C16/process-died/%s" % cause, {"cmd": " ".join(cmd[1:]), "stderr": stderr[-800:]})
-                continue
-            obs["runs/%s" % kind] = obs.get("runs/%s" % kind, 0) + 1
-            if out["mode"] == "stress":
-                merged["evaluations"] += out["searches"]
-                sigs.add(kind + ":" + out["interleaving"])
-                if out["mismatches"]:
-                    violation("C16/divergent-result", {"cmd": " ".join(cmd[1:]), "details": out["mismatches"][:3]})
-                if out["panics"]:
-                    violation("C16/panic-in-thread", {"cmd": " ".join(cmd[1:])})
-                if out["inputs_mutated"]:
-                    violation("C16/shared-input-mutated", {"cmd": " ".join(cmd[1:]), "inputs": out["inputs_mutated"]})
-            else:
-                merged["evaluations"] += out["probes"]
-                key = "%d/%d" % (out["arrived_before_init"], out["threads"])
-                arrived_hist[key] = arrived_hist.get(key, 0) + 1
-                inits[str(out["runtime_initialisations"])] = inits.get(str(out["runtime_initialisations"]), 0) + 1
-                sigs.add("first:%s:%s" % (key, out["spins"]))
-                if out["problems"]:
-                    violation("C16/first-use-race/divergent-or-missing-builtin", {"cmd": " ".join(cmd[1:]), "details": out["problems"][:3]})
-                if out["panics"]:
-                    violation("C16/panic-in-thread", {"cmd": " ".join(cmd[1:])})
+    # the hammer runs need the cores to themselves (a race between threads of one process does not show while
+    # sixteen other processes keep them off the CPUs): they run afterwards, one at a time
+    phases = (([j for j in jobs if j[0] != "hammer"], o.NCPU), ([j for j in jobs if j[0] == "hammer"], 1))
+    for phase_jobs, workers in phases:
+        with ThreadPoolExecutor(max_workers=workers) as ex:
+            futs = [(kind, cmd, ex.submit(_run_json, cmd, env_t if kind.startswith("tsan") else None)) for kind, cmd in phase_jobs]
+            for kind, cmd, f in futs:
+                out, rc, stderr = f.result()
+                if rc == "watchdog":
+                    merged["inconclusive"].append("%s: wall-clock watchdog" % " ".join(cmd[1:]))
+                    continue
+                if kind.startswith("tsan") and (rc == 66 or "ThreadSanitizer" in stderr):
+                    i = stderr.find("WARNING: ThreadSanitizer")
+                    violation("C16/tsan-report", {"cmd": " ".join(cmd[1:]), "report": stderr[i:i + 2500]})
+                    continue
+                if out is None or rc != 0:
+                    cause = _death_cause(rc if isinstance(rc, int) else 1, stderr)
+                    violation("C16/process-died/%s" % cause, {"cmd": " ".join(cmd[1:]), "stderr": stderr[-800:]})
+                    continue
+                obs["runs/%s" % kind] = obs.get("runs/%s" % kind, 0) + 1
+                if out["mode"] == "stress":
+                    merged["evaluations"] += out["searches"]
+                    sigs.add(kind + ":" + out["interleaving"])
+                    for fn, n in (out.get("per_function") or {}).items():
+                        obs["hammer_calls/%s" % fn] = obs.get("hammer_calls/%s" % fn, 0) + n
+                    if out.get("fresh_runtime_rounds"):
+                        obs["hammer_fresh_runtime_rounds"] = obs.get("hammer_fresh_runtime_rounds", 0) + out["fresh_runtime_rounds"]
+                    if out["mismatches"]:
+                        violation("C16/divergent-result", {"cmd": " ".join(cmd[1:]), "details": out["mismatches"][:3]})
+                    if out["panics"]:
+                        violation("C16/panic-in-thread", {"cmd": " ".join(cmd[1:])})
+                    if out["inputs_mutated"]:
+                        violation("C16/shared-input-mutated", {"cmd": " ".join(cmd[1:]), "inputs": out["inputs_mutated"]})
+                else:
+                    merged["evaluations"] += out["probes"]
+                    key = "%d/%d" % (out["arrived_before_init"], out["threads"])
+                    arrived_hist[key] = arrived_hist.get(key, 0) + 1
+                    inits[str(out["runtime_initialisations"])] = inits.get(str(out["runtime_initialisations"]), 0) + 1
+                    sigs.add("first:%s:%s" % (key, out["spins"]))
+                    if out["problems"]:
+                        violation("C16/first-use-race/divergent-or-missing-builtin", {"cmd": " ".join(cmd[1:]), "details": out["problems"][:3]})
+                    if out["panics"]:
+                        violation("C16/panic-in-thread", {"cmd": " ".join(cmd[1:])})
     merged["distinct"].update(hash(s) & 0xFFFFFFFFFFFF for s in sigs)
     merged["samples"] = [{"stress_interleaving_signatures(first 48 ticketed operations by thread)": sorted(s for s in sigs if s.startswith("stress"))[:4]},
                          {"first_use_runs(arrived_before_init/threads -> runs)": arrived_hist}]
@@ -934,6 +946,11 @@ def c16_plan(pid, tier, seed, t0):
         "'crowd' runs keep one long-lived worker projecting over 171 elements while 160..640 short-lived threads come and go in waves, each "
         "projecting over its own 48..307 elements and all of a wave hitting at once a never-seen document whose 19-digit numeric strings go through "
         "to_number; "
+        "'hammer' runs make 4..32 threads call the SAME built-in through one shared runtime in a tight loop, one built-in after another (join, sort, "
+        "sort_by, max_by/min_by with ties, max/min, sum/avg, map with two differently ill-typed elements, projections, filters, reverse, to_string, merge, "
+        "keys/values, length/contains on multi-byte strings, flatten, to_number), each thread on its own inputs of 0..376 (some 2600) elements, compared "
+        "with what a private runtime returned to the same thread beforehand; then several hundred rounds with a fresh shared runtime into which all "
+        "threads bring 80+ never-seen arrays of 64..103 numbers at once (sum, avg, max, length, sort, max_by, join known by construction); "
         "'handoff' rounds move ownership between threads: the main thread compiles an expression, long-lived workers search it three times, the main "
         "thread drops it and compiles a same-length text differing in a constant (results known by construction), while every thread also compiles a "
         "60..120-deep multi-select at the same instant; "
@@ -1032,7 +1049,7 @@ def c17_plan(pid, tier, seed, t0):
                 cid, kind = cid + ".big", kind[4:]
             if kind.startswith("names."):
                 cid, kind = cid + ".names", kind[6:]
-            if kind.startswith("deep") or kind.startswith("size") or kind.startswith("shared") or kind.startswith("fsum") or kind.startswith("close"):
+            if kind.startswith("deep") or kind.startswith("size") or kind.startswith("shared") or kind.startswith("fsum") or kind.startswith("close") or kind.startswith("bykey"):
                 pre, _, kind = kind.partition(".")
                 cid = cid + "." + pre
             if c == "n-default":
